@@ -105,8 +105,8 @@ def run_molecular(ctx, of, rng, n):
             m = of.MolecularData(geom, rng.choice(['sto-3g', 'cc-pvdz']), rng.choice([1, 3]), rng.choice([0, 1, -1]), description=rng.choice(['', 'test_1', '0.7414']), filename=os.path.join(tmp, 'mol'))
             no = rng.choice([1, 2, 3])
             vals = {}
-            for attr, mk in (('n_orbitals', lambda: no), ('n_qubits', lambda: 2 * no), ('nuclear_repulsion', lambda: rng.uniform(0, 5)), ('hf_energy', lambda: -rng.uniform(0, 5)),
-                             ('fci_energy', lambda: -rng.uniform(0, 5)), ('orbital_energies', lambda: np.array([rng.uniform(-2, 2) for _ in range(no)])),
+            for attr, mk in (('n_orbitals', lambda: no), ('n_qubits', lambda: 2 * no), ('nuclear_repulsion', lambda: rng.choice([0.0, np.float64(0.0), rng.uniform(0, 5)])), ('hf_energy', lambda: rng.choice([0.0, -rng.uniform(0, 5)])),
+                             ('fci_energy', lambda: rng.choice([0.0, np.float64(0.0), -rng.uniform(0, 5)])), ('orbital_energies', lambda: np.array([rng.uniform(-2, 2) for _ in range(no)])),
                              ('one_body_integrals', lambda: np.array([[rng.uniform(-1, 1) for _ in range(no)] for _ in range(no)])),
                              ('two_body_integrals', lambda: np.random.RandomState(rng.randrange(10 ** 6)).rand(no, no, no, no)),
                              ('canonical_orbitals', lambda: np.random.RandomState(rng.randrange(10 ** 6)).rand(no, no)), ('mp2_energy', lambda: 0.0), ('ccsd_energy', lambda: -1.0)):
